@@ -162,7 +162,7 @@ func (r *Run) depth(st *State, fn *ssa.Function) (int, bool) {
 func (r *Run) afterCall(st *State, fr *Frame, callee string, args []Val, res []Val, sig *types.Signature, in ssa.Instruction) {
 	e := r.e
 	blk := e.cs.Funcs[e.fnName[fr.Fn]]
-	if blk == nil {
+	if blk == nil || r.ownClausesOff(st, fr) {
 		return
 	}
 	cls := blk.All("after-call")
@@ -220,7 +220,7 @@ func (r *Run) atCall(st *State, fr *Frame, callee string, args []Val, sig *types
 		fname := e.fnName[f.Fn]
 		e.sitesHit[fname+"|"+qs] = true
 		blk := e.cs.Funcs[fname]
-		if blk == nil {
+		if blk == nil || (j == len(st.Frames)-1 && r.ownClausesOff(st, f)) {
 			continue
 		}
 		for _, cl := range blk.All("at-call") {
@@ -265,7 +265,7 @@ func (r *Run) callFunction(st *State, fr *Frame, fn *ssa.Function, binds []Val, 
 	isClosure := fn.Parent() != nil && !strings.HasPrefix(name, "var:")
 	useContract := blk != nil && blk.First("inline") == nil && (!isClosure || blk.First("modular") != nil)
 	if useContract {
-		return r.applyContract(st, fr, fn, blk, args, dst, in)
+		return r.applyContract(st, fr, fn, blk, args, dst, in, binds)
 	}
 	d, rec := r.depth(st, fn)
 	if rec || d >= maxInlineDepth {
@@ -386,6 +386,17 @@ func (e *Engine) calleeName(cc *ssa.CallCommon) string {
 	return "dynamic"
 }
 
+// usesPathGhosts: does a clause mention ghost state that is local to one execution of a function body.
+func usesPathGhosts(expr string) bool {
+	for _, g := range []string{"spawned(", "calls(", "lastres(", "lastarg(", "lastsent(", "lastrecv(", "lasterr(", "lastrand(",
+		"icalls(", "ilast(", "atomics(", "apre(", "apost(", "aop(", "panicking(", "nolocks(", "held(", "heldW(", "heldR(", "heldcond(", "mapkey(", "mapidx(", "now(", "captured("} {
+		if strings.Contains(expr, g) {
+			return true
+		}
+	}
+	return false
+}
+
 func sigHasInts(sig *types.Signature) bool {
 	has := func(t types.Type) bool {
 		switch u := t.Underlying().(type) {
@@ -437,11 +448,31 @@ func (e *Engine) bindResults(fn *ssa.Function, vars map[string]SV, res []Val) {
 }
 
 // applyContract: assert pre, havoc frame, assume post.
-func (r *Run) applyContract(st *State, fr *Frame, fn *ssa.Function, blk *Block, args []Val, dst ssa.Value, in ssa.Instruction) []*State {
+func (r *Run) applyContract(st *State, fr *Frame, fn *ssa.Function, blk *Block, args []Val, dst ssa.Value, in ssa.Instruction, binds []Val) []*State {
 	e := r.e
 	callee := e.fnName[fn]
 	caller := e.fnName[fr.Fn]
 	vars := e.contractVars(fn, args)
+	// a closure with its own contract: its captured variables are visible to the contract by name
+	var written []*Cell
+	for i, fv := range fn.FreeVars {
+		if i < len(binds) {
+			if a, ok := binds[i].(*Addr); ok && a.Kind == ACell {
+				vars[fv.Name()] = SV{V: st.Cells[a.Cell], T: a.Cell.Typ}
+				if closureWrites(fn, i) {
+					written = append(written, a.Cell)
+				}
+			} else if t, ok := binds[i].(T); ok {
+				vars[fv.Name()] = SV{V: t, T: fv.Type()}
+			}
+		}
+	}
+	defer func() {
+		// the call may have assigned the captured variables it writes
+		for _, c := range written {
+			st.Cells[c] = e.freshVal(st, c.Typ, "cw_"+c.Name)
+		}
+	}()
 	ord := e.callOrdinal(fr.Fn, in, callee)
 	mkCtx := func(s *State, old map[string]string) *SpecCtx {
 		c := e.specCtx(s, nil)
@@ -559,6 +590,10 @@ func (r *Run) applyContract(st *State, fr *Frame, fn *ssa.Function, blk *Block, 
 		x, err := parseSpec(cl.Expr)
 		if err != nil {
 			e.fail("%v", err)
+			continue
+		}
+		if usesPathGhosts(cl.Expr) {
+			// talks about the callee's own execution (spawn/call counters, observed atomics, ...): meaningless for the caller
 			continue
 		}
 		nerr := len(e.errors)
